@@ -121,7 +121,9 @@ func seeds(cfg childCfg) map[string][]step {
 			req("RECORD", "{base}/pub", true, "Session", "{sess}"),
 		}
 	}
-	if cfg.Multicast && !cfg.TLS {
+	if !cfg.TLS {
+		// also on servers without multicast (with or without UDP): the request has to be
+		// answered - refused - like any other transport the server does not offer
 		s["play-mcast"] = []step{
 			req("DESCRIBE", "{base}/stream", true),
 			req("SETUP", "{base}/stream/trackID=0", true, "Transport", "RTP/AVP;multicast"),
